@@ -297,8 +297,8 @@ def check_daughters(ctx, fpart):
     problems = []
     for p in ps:
         txt = [util.stmt_key(e.node).replace(' ', '') for e in p.stmts()]
-        dec = {src(e.node).replace(' ', ''): e.info for e in p.events if e.kind == 'test'}
-        if dec.get('add_to_lineageorcreate_schnitzes') is False:
+        dec = {util.canon_test(e.node).replace(' ', ''): e.info for e in p.events if e.kind == 'test'}
+        if dec.get('(add_to_lineageorcreate_schnitzes)') is False:
             continue
         need = ['self.daughter_schnitz1.set_parent(self.s)', 'self.daughter_schnitz2.set_parent(self.s)',
                 'self.s.set_daughters(self.daughter_schnitz1,self.daughter_schnitz2)']
